@@ -830,7 +830,7 @@ class nx_reg_load (of.ofp_action_vendor_base):
       assert self.value is None
       value = dst.pack(omittable=False)[4:]
       while len(value) < 8:
-        value = '\x00' + value
+        value = b'\x00' + value
       dst = type(dst)
     else:
       value = struct.pack('!Q', value)
